@@ -818,7 +818,7 @@ class Emitter:
             nm = "FP%d" % len(self.lit_structs)
             self.lit_structs[key] = (nm, ft)
             ps = [self.ctype(p) for p in ft.params]
-            if ft.vararg: ps.append("...")
+            if ft.vararg and ps: ps.append("...")
             self.out_types.append("typedef %s (*%s)(%s);" % (self.ctype(ft.ret), nm, ", ".join(ps) if ps else "void"))
         return self.lit_structs[key][0]
 
@@ -1350,11 +1350,13 @@ class Emitter:
                 raise NotEncoded("intrinsic " + base)
             if I.op == "invoke": out.append("  " + edge(label, I.normal))
             return out
-        if name in ("vf_assert", "vf_witness", "vf_assume") or (name and name.startswith("vf_nondet_")):
+        if name in ("vf_assert", "vf_witness", "vf_assume", "vf_observe") or (name and name.startswith("vf_nondet_")):
             if name == "vf_assume":
                 out.append("  VF_ASSUME(%s);" % self.value(argv[0]))
             elif name == "vf_assert":
                 out.append("  VF_ASSERT(%s, %s);" % (self.value(argv[0]), self.cstring_of(argv[1])))
+            elif name == "vf_observe":
+                out.append("  VF_OBSERVE((uint64_t)%s);" % self.value(argv[0]))
             elif name == "vf_witness":
                 out.append("  VF_WITNESS(%s);" % self.cstring_of(argv[0])[1:-1].join(['"', '"']))
             else:
@@ -1414,7 +1416,9 @@ class Emitter:
             return
         cty = self.ctype(ty)
         if g["external"]:
-            decls.append("%s %s;" % (cty, self.gname(name)))         # external object: zero storage, defined here (single TU)
+            # external object (std::cout, a cxxabi vtable, ...): storage only, with slack after it because the
+            # IR forms addresses past its declared type (vtable address points)
+            decls.append("struct { %s v; uint8_t slack[256]; } GW_%s;\n#define %s (GW_%s.v)" % (cty, cident(name), self.gname(name), cident(name)))
             return
         decls.append("%s %s;" % (cty, self.gname(name)))
         init = g["init"]
@@ -1478,7 +1482,7 @@ class Emitter:
         for n, b in STD_TI_BASES.items():
             if n not in done_g:
                 extra_ti.append(n); done_g.add(n)
-                gdecls.append("uint8_t* %s;" % self.gname(n))
+                gdecls.append("struct { uint8_t* v; uint8_t slack[256]; } GW_%s;\n#define %s (GW_%s.v)" % (cident(n), self.gname(n), cident(n)))
             if b: ti_rows.append((n, b))
         chg = True
         # external function policy
@@ -1557,10 +1561,17 @@ def scan_stub_names(paths):
             names.add(mm.group(1))
     return names
 
-def translate(ir_text, entries, stub_paths, havoc=()):
-    # global ctor pruning: functions reachable only from ctors are pulled in when the entry list names vf_global_ctors
+def translate(ir_text, entries, stub_paths, havoc=(), noop_re=()):
+    """noop_re: regexes over mangled names of DEFINED functions whose bodies are cut and replaced by a
+    do-nothing / nondeterministic stub (function-level stubbing; every cut is reported by the caller)."""
     m = ModuleParser(ir_text).parse()
+    havoc = list(havoc)
+    cut = []
+    for name, f in m.funcs.items():
+        if f.defined and any(re.search(rx, name) for rx in noop_re):
+            f.defined = False; f.blocks = []; havoc.append(name); cut.append(name)
     em = Emitter(m, entries, scan_stub_names(stub_paths), havoc)
+    em.cut_functions = cut
     return em.run(), em
 
 def main():
@@ -1569,13 +1580,15 @@ def main():
     ap.add_argument("--entry", required=True)
     ap.add_argument("--stub-src", action="append", default=[])
     ap.add_argument("--havoc", default="")
+    ap.add_argument("--noop-re", action="append", default=[])
     a = ap.parse_args()
     try:
-        text, em = translate(open(a.ir).read(), a.entry.split(","), a.stub_src, [h for h in a.havoc.split(",") if h])
+        text, em = translate(open(a.ir).read(), a.entry.split(","), a.stub_src, [h for h in a.havoc.split(",") if h], a.noop_re)
     except NotEncoded as e:
         print("NOT-ENCODED: %s" % e, file=sys.stderr)
         sys.exit(3)
     open(a.o, "w").write(text)
+    if em.cut_functions: print("cut (body replaced by a no-op stub): " + ", ".join(em.cut_functions))
     print("translated %d functions, %d globals, %d external models used" % (len([f for f in em.needed_funcs if em.m.funcs[f].defined]), len(em.needed_globals), len(em.ext_funcs)))
 
 if __name__ == "__main__":
